@@ -11,7 +11,7 @@ wire-supplied values without a guard against the buffered length; (R03.3) no rec
 Does NOT decide measured heap growth or liveness of other connections."""
 import os
 from ..sym import Sym, show, walk_expr, PathExplosion
-from ..common import trait_impls, short, coroutine_of, strip_casts
+from ..common import trait_impls, short, coroutine_of, strip_casts, mask_of
 from .. import callgraph, oblig
 from ..facts import callee_name, fmt_span
 from .c02 import decoder_roles, loop_heads
@@ -56,23 +56,25 @@ def surface(f):
 
 
 def decoder_paths(f, dec, self_ty):
-    """Abstract interpretation of the decoder's state machine: iterate (state variant, payload, counter) abstract
-    states from the constructor to a fixpoint; every step is one pass from the loop head to the next visit of it
-    (or to a return / a self-call)."""
+    """Abstract interpretation of the decoder's state machine: iterate (state variant, payload, counter, decided header
+    flags) abstract states from the constructor to a fixpoint; every step is one pass from the loop head to the next visit of
+    it (or to a return / a self-call). Header bits are kept as atoms ("flag", K) with the truth the previous steps decided for
+    them, so `long` in the length state is correlated with the 8|1 the header state stored. Private helpers are looked through."""
+    from ..pathq import default_inline
     roles = decoder_roles(f, self_ty)
     if roles is None:
         return None, None
     skey = "(*_1).%s" % roles["state"]
     ckey = "(*_1).%s" % roles["counter"]
-    # initial abstract state from the constructor
+    inl = default_inline(f)
     init = None
     for b in f.bodies:
         if b.kind == "AssocFn" and (b.j.get("impl_self") or "").endswith(self_ty.split("::")[-1]) and b.j.get("impl_trait") is None:
             for p in Sym(f).paths(b):
-                if p.end == "return" and p.ret and p.ret[0] == "agg" and p.ret[1] == "adt":
+                if p.end == "return" and p.ret and p.ret[0] == "agg" and p.ret[1] == "adt" and (p.ret[2] or "").endswith(self_ty.split("::")[-1]) and len(p.ret[4]) == len(roles["fields"]):
                     vals = dict(zip(roles["fields"], p.ret[4]))
                     if roles["state"] in vals and vals[roles["state"]][0] == "agg":
-                        init = (vals[roles["state"]], vals[roles["counter"]])
+                        init = (vals[roles["state"]], vals[roles["counter"]], frozenset())
     if init is None:
         return None, None
     heads = {(dec.path, b) for b in loop_heads(dec)}
@@ -84,29 +86,49 @@ def decoder_paths(f, dec, self_ty):
         if s in seen:
             continue
         seen.add(s)
-        if len(seen) > 64:
+        if len(seen) > 200:
             raise PathExplosion("decoder abstract states do not converge")
-        sym = Sym(f, max_visits=2, stop_blocks=heads,
+        sym = Sym(f, max_visits=2, stop_blocks=heads, inline=inl, inline_depth=3,
                   stop_calls=lambda fn: fn["path"] == dec.path or (fn.get("resolved") or {}).get("path") == dec.path)
-        paths = sym.paths(dec, seed={skey: s[0], ckey: s[1]})
+        paths = sym.paths(dec, seed={skey: s[0], ckey: s[1]}, seed_conds=[(("flag", k), ("eq", int(t))) for (k, t) in sorted(s[2])])
+        for p in paths:
+            p.abstract_in = s
         allpaths += paths
         for p in paths:
             if p.end not in ("stop", "return"):
                 continue
-            so = p.env.get(skey)
-            co = p.env.get(ckey)
+            so = p.cell(("arg", 1), roles["state"])
+            co = p.cell(("arg", 1), roles["counter"])
             if so is None or co is None or so[0] != "agg":
                 continue
-            work.append((abstract(so, p), abstract_counter(co)))
+            decided = dict(s[2])
+            st_abs = abstract(so, p, decided)
+            # flags only matter while a header is in flight: forget them once the state carries no payload
+            if not st_abs[4]:
+                decided = {}
+            work.append((st_abs, abstract_counter(co), frozenset(decided.items())))
     return allpaths, seen
 
 
-def abstract(e, p):
-    """Keep aggregates and decided booleans, forget everything else."""
+def abstract(e, p, decided):
+    """Keep aggregates, header-bit atoms and decided booleans, forget everything else."""
     if e[0] == "agg":
-        return ("agg", e[1], e[2], e[3], tuple(abstract(x, p) for x in e[4]))
+        return ("agg", e[1], e[2], e[3], tuple(abstract(x, p, decided) for x in e[4]))
     if e[0] == "int":
         return e
+    if e[0] == "flag":
+        for (c_e, c, _, _) in p.conds:
+            if c_e == e and c[0] == "eq":
+                decided[e[1]] = bool(c[1])
+        return e
+    m = mask_of(e)
+    if m is not None and not isinstance(m, tuple):
+        for (c_e, c, _, _) in p.conds:
+            if c_e == e:
+                t = c[1] if c[0] == "eq" else (1 if c == ("notin", (0,)) else None)
+                if t is not None:
+                    decided[m] = bool(t)
+        return ("flag", m)
     for (c_e, c, _, _) in p.conds:
         if c_e == e:
             if c[0] == "eq":
@@ -178,27 +200,43 @@ def run(ctx, f, rep):
             rep.count("decoder_abstract_states", len(states))
     total_sites = 0
     alloc_sites = 0
+    from ..pathq import default_inline
+    inl = default_inline(f)
+    own = {}        # body path -> (keys, res of its own sites, standalone)
+    ctx = {}        # (fnpath, bb) -> list of result dicts from callers that looked through the helper
+    all_paths = {}
     for path in sorted(R):
         body = f.body(path)
         if body is None:
             continue
         keys, inv = site_keys(body)
         sinks = [(bb, t, fn) for bb, t, fn in body.calls() if fn and fn["name"] in ALLOC_SINKS]
-        if not inv and not sinks:
+        has_inlinable_callee = any(fn and inl(fn) for bb, t, fn in body.calls())
+        if not inv and not sinks and not has_inlinable_callee:
             continue
         if path in dec_paths:
             paths = dec_paths[path]
         else:
             try:
-                paths = Sym(f, max_visits=2, max_paths=6000).paths(body)
+                paths = Sym(f, max_visits=2, max_paths=6000, inline=inl, inline_depth=3).paths(body)
             except PathExplosion:
                 try:
-                    paths = Sym(f, max_visits=1, max_paths=20000, cut_at_yield=True).paths(body)
+                    paths = Sym(f, max_visits=1, max_paths=20000, cut_at_yield=True, inline=inl, inline_depth=3).paths(body)
                 except PathExplosion as e:
                     rep.bad("R03.1", "R03.1|%s|explosion" % path, "cannot enumerate paths: %s" % e, body.loc())
                     continue
         rep.count("paths_enumerated", len(paths))
+        all_paths[path] = paths
         res = oblig.evaluate(f, body, paths)
+        own[path] = (keys, {k: r for k, r in res.items() if not r.get("foreign")})
+        for k, r in res.items():
+            if r.get("foreign") and r["paths"] > 0:
+                ctx.setdefault(k, []).append((path, r))
+    for path in sorted(own):
+        body = f.body(path)
+        keys, res = own[path]
+        sig = f.fns.get(path) or {}
+        private_helper = not sig.get("vis", "Public").startswith("Public") and not body.j.get("impl_trait") and not body.j.get("coroutine_kind")
         for k, r in sorted(res.items(), key=lambda kv: kv[0][1]):
             s = r["site"]
             total_sites += 1
@@ -213,12 +251,25 @@ def run(ctx, f, rep):
             if is_wrapper_site(f, body, s):
                 rep.ok(rule, key, "%s: precondition belongs to the callers of this one-line wrapper (checked at each call site on the surface)" % what, s["loc"])
                 continue
+            callers = ctx.get(k, [])
+            if private_helper and callers:
+                # a crate-private helper: its sites are decided in the context of every surface caller that reaches them
+                bad = [(c, cr) for c, cr in callers if cr["fail"] is not None]
+                if bad:
+                    c, cr = bad[0]
+                    rep.bad(rule, key, "%s: NOT guarded on some path through caller %s: %s" % (what, c, cr["fail"][0]), s["loc"], detail="path decisions: %s" % cr["fail"][1])
+                else:
+                    rep.ok(rule, key, "%s: discharged in the context of %d caller(s) (%s): %s" % (
+                        what, len(callers), ", ".join(c.split("::")[-1] for c, _ in callers)[:80], "; ".join(sorted(set().union(*[cr["reasons"] for _, cr in callers])))[:160]), s["loc"])
+                continue
             if r["paths"] == 0:
                 rep.bad(rule, key, "%s: site not reached by any enumerated path (cannot be discharged)" % what, s["loc"])
             elif r["fail"] is not None:
                 rep.bad(rule, key, "%s: NOT guarded on some path: %s" % (what, r["fail"][0]), s["loc"], detail="path decisions: %s" % r["fail"][1])
             else:
                 rep.ok(rule, key, "%s: discharged on %d path(s): %s" % (what, r["paths"], "; ".join(sorted(r["reasons"]))[:200]), s["loc"])
+    for path, paths in sorted(all_paths.items()):
+        body = f.body(path)
         # ---- R03.2 allocation sinks
         for p in paths:
             for ev in p.events:
@@ -228,12 +279,12 @@ def run(ctx, f, rep):
                     if size is None:
                         continue
                     why = tainted(size)
-                    key = "R03.2|%s|%s" % (path, short(ev.name))
+                    key = "R03.2|%s|%s" % (ev.fnpath, short(ev.name))
                     if why:
                         rep.bad("R03.2", key, "allocation size `%s` passed to %s derives from %s: a declared length reserves memory before the bytes arrive"
-                                % (show(size)[:80], ev.name, why), body.loc(ev.bb))
+                                % (show(size)[:80], ev.name, why), body.loc(ev.bb) if ev.fnpath == path else "%s bb%d" % (ev.fnpath, ev.bb))
                     else:
-                        rep.ok("R03.2", key, "allocation size `%s` does not derive from wire-supplied values" % show(size)[:60], body.loc(ev.bb))
+                        rep.ok("R03.2", key, "allocation size `%s` does not derive from wire-supplied values" % show(size)[:60], body.loc(ev.bb) if ev.fnpath == path else None)
     rep.floor("R03.1", "panic obligations on the surface", total_sites, 30)
     rep.count("alloc_sink_evaluations", alloc_sites)
     if alloc_sites == 0:
